@@ -14,13 +14,16 @@
        of the nearest-neighbour couplings lie in an additive cone P (0 in P, closed under +), every off-diagonal entry of the
        open-chain pattern operator lies in P; signaling_cascade(d) meets this for every d, cell size, rates and propensity
        table in a cone closed under products (P = "non-negative": off-diagonals >= 0; instance over Z below).
-   PARTIAL / outside the proof: non-negativity of the off-diagonals of two_step_destruction and of the
+     - C13_two_step_offdiag: the same sign condition for two_step_destruction (given core by core, ranks 3, 5, 3): its
+       entries are an explicit sum of five Kronecker terms (two_step_value) and every off-diagonal entry lies in every
+       cone containing 0, 1 and the rates and closed under + and *, for all cell sizes.
+   PARTIAL / outside the proof: non-negativity of the off-diagonals of the
    SLIM-built models co_oxidation and toll_station beyond C12's pattern theorem (their super-core SVD is an oracle),
    unitarity of qfa/qfan/shor/qft/iqft, "QFT groups multiply to the bit-reversed DFT" (roots of unity),
    FPU/Kuramoto right-hand sides and the fractals: decided by the side check (search) in harness/props/c13.py. *)
 From Coq Require Import ZArith List Lia Arith.
 Import ListNotations.
-Require Import Ring Sums Matrix Core Chain Sweep Slim SlimProof GeneratorProof Models ModelsProof OffdiagProof.
+Require Import Ring Sums Matrix Core Chain Sweep Slim SlimProof GeneratorProof Models ModelsProof OffdiagProof TwoStepOffdiag.
 Open Scope cr_scope.
 
 Theorem C13_pattern_generator (R : cring) rc (s0 s1 : site R) rest ys :
@@ -70,6 +73,26 @@ Theorem C13_cascade_offdiag (R : cring) (P : R -> Prop) (P0 : P 0) (Padd : foral
 Proof. intros Pa Pc Pl. exact (cascade_offdiag P P0 Padd P1 Pmul n a c l Pa Pc Pl d xs ys). Qed.
 Print Assumptions C13_cascade_offdiag.
 
+Theorem C13_two_step_offdiag (R : cring) (P : R -> Prop) (P0 : P 0) (Padd : forall a b, P a -> P b -> P (a + b))
+        (P1 : P 1) (Pmul : forall a b, P a -> P b -> P (a * b)) (k1 k2 k3 : R) (n0 n1 n2 n3 : nat) x0 x1 x2 x3 y0 y1 y2 y3 :
+  P k1 -> P k2 -> P k3 -> [x0; x1; x2; x3] <> [y0; y1; y2; y3] ->
+  P (elem (two_step_destruction k1 k2 k3 n0 n1 n2 n3) [x0; x1; x2; x3] [y0; y1; y2; y3]).
+Proof. intros Pk1 Pk2 Pk3. exact (two_step_offdiag k1 k2 k3 n0 n1 n2 n3 P P0 Padd P1 Pmul Pk1 Pk2 Pk3 x0 x1 x2 x3 y0 y1 y2 y3). Qed.
+Print Assumptions C13_two_step_offdiag.
+
+Theorem C13_two_step_offdiag_Z (k1 k2 k3 : Z) (n0 n1 n2 n3 : nat) x0 x1 x2 x3 y0 y1 y2 y3 :
+  (0 <= k1)%Z -> (0 <= k2)%Z -> (0 <= k3)%Z -> [x0; x1; x2; x3] <> [y0; y1; y2; y3] ->
+  (0 <= elem (@two_step_destruction Zring k1 k2 k3 n0 n1 n2 n3) [x0; x1; x2; x3] [y0; y1; y2; y3])%Z.
+Proof.
+  intros H1 H2 H3.
+  apply (C13_two_step_offdiag Zring (fun z => (0 <= z)%Z)); try assumption.
+  - apply Z.le_refl.
+  - intros u v Hu Hv. change (0 <= u + v)%Z. lia.
+  - change (0 <= 1)%Z. lia.
+  - intros u v Hu Hv. change (0 <= u * v)%Z. nia.
+Qed.
+Print Assumptions C13_two_step_offdiag_Z.
+
 (* instance over the integers: non-negative rates give non-negative off-diagonal entries *)
 Theorem C13_cascade_offdiag_Z (n : nat) (a c : Z) (l : nat -> Z) d xs ys :
   (0 <= a)%Z -> (0 <= c)%Z -> (forall y, 0 <= l y)%Z ->
@@ -93,4 +116,8 @@ Proof. vm_compute. reflexivity. Qed.
 Example ex_cascade_below : below [2; 1; 0]%nat (dimsof (@cascade_sites ZIring 3 (7, 0)%Z (2, 0)%Z (fun y => (Z.of_nat y, 0)%Z) 3)).
 Proof. cbn. lia. Qed.
 Example ex_ising : elem (@ising ZIring 3 (2, 0)%Z (5, 0)%Z) [0; 1; 1]%nat [0; 0; 0]%nat = (5, 0)%Z.
+Proof. vm_compute. reflexivity. Qed.
+
+(* non-vacuity: an off-diagonal entry of two_step_destruction(k1=2, k2=3, k3=5) with cell sizes 2, 4, 2, 2 is positive *)
+Example ex_two_step_off : elem (@two_step_destruction Zring 2%Z 3%Z 5%Z 2 4 2 2) [0; 0; 0; 0]%nat [0; 0; 0; 1]%nat = 5%Z.
 Proof. vm_compute. reflexivity. Qed.
